@@ -1166,7 +1166,7 @@ def _grid(tier, mode):
 
 
 def plan(tier):
-  n = 6000 if tier == "quick" else 64000
+  n = 4000 if tier == "quick" else 64000
   return [
     Enum("grid-flow", lambda: _grid(tier, "flow"), shards=16),
     Enum("grid-packet-out", lambda: _grid(tier, "packet_out"), shards=16),
